@@ -18,6 +18,7 @@ import KskmProofs.Lemmas.C16Conforms
 import KskmProofs.Lemmas.C16Table
 import KskmProofs.Lemmas.C16Flags
 import KskmProofs.Lemmas.C16Duration
+import KskmProofs.Lemmas.C16Coercion
 namespace Kskm.C16
 open Kskm Kskm.Config
 
@@ -967,5 +968,189 @@ theorem observed_statuses_explained :
       = some (mainStatus exitCodes validationCaught .fileNotFound false) ∧
     List.lookup "malformed_yaml" KskmGen.exitStatusObserved
       = some (mainStatus exitCodes validationCaught .otherException false) := by decide
+
+/-! ## 8. Coercions decided exactly (wave B3): what pydantic makes of numbers and of text that is not the documented spelling
+
+  The classes below were `unsupported` before; the model now answers them like pydantic 2.13 /
+  pydantic-core 2.46 does (established by experiment, re-checked on every run by the `coercion`,
+  `scalar`, `duration` and `duration-direct` streams of harness/corr_C16.py).  The theorems say what
+  the property needs of them: nothing is accepted that does not state the loaded value, and what is
+  refused is refused before anything is read. -/
+
+/-- **numeric_validity_exact** (all integers).  A validity (`valid_from` / `valid_until`) given as a whole
+    number is loaded iff it is a unix time within the years 1–9999 — seconds when `|i| ≤ 2·10^10`,
+    otherwise milliseconds — and then as exactly that instant, in UTC (never without time zone). -/
+theorem numeric_validity_exact (i us : Int) (off : Option Int) :
+    pydDatetimeOfNumber i = some (us, off) ↔
+      off = some 0 ∧
+      us = (if -20000000000 ≤ i ∧ i ≤ 20000000000 then i * 1000000 else i * 1000) ∧
+      -62135596800000000 ≤ us ∧ us ≤ 253402300799999999 :=
+  pydDatetimeOfNumber_iff i us off
+
+example : pydDatetimeOfNumber 1500000000 = some (1500000000000000, some 0) ∧
+    pydDatetimeOfNumber 1500000000123 = some (1500000000123000, some 0) ∧
+    pydDatetimeOfNumber 20000000001 = some (20000000001000, some 0) ∧
+    pydDatetimeOfNumber (-62135596800000) = some (-62135596800000000, some 0) ∧
+    pydDatetimeOfNumber (-62135596800001) = none ∧ pydDatetimeOfNumber 253402300800000 = none := by decide +kernel
+
+/-- **whole_seconds_duration_exact** (all integers in the `timedelta` range Python can negate).  A duration
+    option given as whole seconds `i`, `-999 999 999 d ≤ i s < 10^9 d`, is loaded as exactly `i` seconds. -/
+theorem whole_seconds_duration_exact (i : Int)
+    (hlo : -(999999999 * 86400) ≤ i) (hhi : i < 1000000000 * 86400) :
+    pydDurationOfSeconds i = .ok (some (i * 1000000)) :=
+  pydDurationOfSeconds_in_range i hlo hhi
+
+example : pydDurationOfSeconds 950400 = .ok (some (11 * usPerDay)) ∧
+    pydDurationOfSeconds (-86399999913600) = .ok (some (-(999999999 * usPerDay))) := by decide +kernel
+
+/-- **whole_seconds_duration_in_range** (all integers).  Whatever whole number of seconds is accepted,
+    the loaded duration is a representable `timedelta` (`-999 999 999 d ≤ td < 10^9 d`). -/
+theorem whole_seconds_duration_in_range (i u : Int) (h : pydDurationOfSeconds i = .ok (some u)) :
+    tdRangeOk u = true :=
+  pydDurationOfSeconds_some_in_td_range i u h
+
+/-- The hypothesis `i < 10^9 d` of `whole_seconds_duration_exact` is NEEDED: beyond it pydantic's day
+    count is a 32-bit number that wraps, so `2^32` days of seconds are loaded as the zero duration (and
+    one day more as one day), while `10^9` days are refused and `-(10^9 - 1) d - 1 s` raises
+    `OverflowError`.  (A bare number is not a documented spelling of a duration — config/ksrsigner.yaml
+    documents ISO 8601 text —, so the property's "loaded exactly" does not speak about it; the `coercion`
+    stream records these as `quirk:td-int:…`.) -/
+theorem whole_seconds_duration_wraps :
+    pydDurationOfSeconds (4294967296 * 86400) = .ok (some 0) ∧
+    pydDurationOfSeconds (4294967297 * 86400) = .ok (some usPerDay) ∧
+    pydDurationOfSeconds (1000000000 * 86400) = .ok none ∧
+    pydDurationOfSeconds (-(999999999 * 86400) - 1) = .error (.error .overflow) ∧
+    pydDurationOfSeconds 9223372036854775808 = .ok none := by decide +kernel
+
+/-- **float_integer_option_exact** (all integral floats).  An integer option given as an integral float
+    is loaded iff the float lies strictly between `-2^63` and `2^63`, and then as that whole number. -/
+theorem float_integer_option_exact (i j : Int) :
+    laxInt (.float (some i) true) = .ok (some j) ↔ j = i ∧ -9223372036854775808 < i ∧ i < 9223372036854775808 :=
+  laxInt_float_iff i j
+
+/-- a float with a fraction, an infinity or a NaN is never an integer -/
+theorem fractional_float_integer_refused (t : Option Int) : laxInt (.float t false) = .ok none := by
+  simp [laxInt, pure, Except.pure]
+
+example : laxInt (.float (some 9223372036854774784) true) = .ok (some 9223372036854774784) ∧
+    laxInt (.float (some 9223372036854775808) true) = .ok none ∧
+    laxInt (.float (some 100000000000000000000) true) = .ok none := by decide +kernel
+
+/-- **integer_text_is_numeric_only** (all strings).  Whatever text is loaded as an integer option consists —
+    inside the white space pydantic trims — of ASCII digits, `_`, `.`, `+` and `-` only: no letter, no
+    exponent, no hexadecimal, no inner blank, no non-ASCII digit is ever read as a number.
+    Partial: about the answers the model GIVES (it declines text longer than 4300 characters and, over
+    `[0-9_+-]`, a sign after a leading zero — there pydantic-core reads `0-6` as -6, see
+    `integer_text_leading_zero_table` and `quirk:int-text:…` in the `coercion` stream). -/
+theorem integer_text_is_numeric_only_partial (s : String) (i : Int) (h : pydStrInt s = .ok (some i)) :
+    ∀ c ∈ trimBy isRustWhitespace s.toList, isAsciiDigit c = true ∨ c ∈ ['_', '.', '+', '-'] :=
+  pydStrInt_some_chars s i h
+
+example : pydStrInt " +1_000.0\u2028" = .ok (some 1000) := by decide +kernel
+
+/-- **integer text** — the accepted spellings pinned: Unicode white space around, one sign, single
+    underscores between digits (any run of zeros and underscores after a leading zero), a `.0…` suffix, any
+    magnitude; nothing else (no second sign, no exponent,
+    no other fraction, no inner space, no non-ASCII digit, U+001C is not white space here). -/
+theorem integer_text_table :
+    pydStrInt " 12" = .ok (some 12) ∧ pydStrInt "12\u2028" = .ok (some 12) ∧ pydStrInt "-007" = .ok (some (-7)) ∧
+    pydStrInt "+1_000" = .ok (some 1000) ∧ pydStrInt "1_2.00" = .ok (some 12) ∧ pydStrInt "-0.0" = .ok (some 0) ∧
+    pydStrInt "18446744073709551616" = .ok (some 18446744073709551616) ∧
+    pydStrInt "--1" = .ok none ∧ pydStrInt "1__0" = .ok none ∧ pydStrInt "_1" = .ok none ∧ pydStrInt "1_" = .ok none ∧
+    pydStrInt "12." = .ok none ∧ pydStrInt ".0" = .ok none ∧ pydStrInt "12.5" = .ok none ∧ pydStrInt "12.0_0" = .ok none ∧
+    pydStrInt "1e3" = .ok none ∧ pydStrInt "0x10" = .ok none ∧ pydStrInt "1 2" = .ok none ∧ pydStrInt "" = .ok none ∧
+    pydStrInt "+" = .ok none ∧ pydStrInt "١٢" = .ok none ∧ pydStrInt "12\x1c" = .ok none := by
+  refine ⟨?_, ?_, ?_, ?_, ?_, ?_, ?_, ?_, ?_, ?_, ?_, ?_, ?_, ?_, ?_, ?_, ?_, ?_, ?_, ?_, ?_, ?_⟩ <;> decide +kernel
+
+/-- … and the leading-zero quirk: after a leading zero any run of zeros and underscores is skipped, so
+    `0__5` is 5 although `1__0` is refused; a sign after that run (`0_-5`, which pydantic-core reads as -5,
+    while it refuses `0-05`) is not modelled -/
+theorem integer_text_leading_zero_table :
+    pydStrInt "0__5" = .ok (some 5) ∧ pydStrInt "-0_0__5_0.0" = .ok (some (-50)) ∧ pydStrInt "0__" = .ok none ∧
+    pydStrInt "0__5__6" = .ok none ∧ pydStrInt "0_0" = .ok (some 0) ∧ pydStrInt "0_-5" = .error .unsupported := by
+  decide +kernel
+
+/-- **negative_ttl_refused_any_spelling** (all values, strict or lax).  Whatever a `ge=0` integer option
+    (`dns_ttl`, `ttl`) is given — a number, a float, text in any of the spellings above — what is loaded
+    is a non-negative integer. -/
+theorem negative_ttl_refused_any_spelling (env : Env) (strict : Bool) (v r : CVal)
+    (h : valScalar env strict (.int (some 0) none none) v = .ok (some r)) : ∃ i, r = .int i ∧ 0 ≤ i := by
+  obtain ⟨i, hi, hb⟩ := valScalar_sound env strict _ v r h
+  exact ⟨i, hi, by simpa [inBounds] using hb⟩
+
+example : laxInt (.str " -1 ") = .ok (some (-1)) ∧ laxInt (.str "-1_0.0") = .ok (some (-10)) ∧
+    inBounds (some 0) none none (-1) = false ∧ laxInt (.str "-0.0") = .ok (some 0) ∧
+    inBounds (some 0) none none 0 = true := by decide +kernel
+
+/-- **accepted_duration_text_is_iso_only** (all strings).  Whatever text pydantic's duration parser is
+    modelled to accept consists of ASCII digits and the ISO 8601 designators `P T Y M W D H S` (with
+    one sign) only: text with white space anywhere, lower-case designators, a time-zone or date
+    separator, a non-ASCII character … is never loaded as a duration.
+    Partial: this is about the answers the model GIVES; for text with a `.`/`,` fraction after `P` and for
+    speedate's non-ISO spellings (`3d`, `1 day, 10:20:30`, `95:13` — made of `[0-9:., dDaAyYsS]` with a
+    `d`/`D`/`:`) the model answers `unsupported` and the implementation is judged by the oracle alone. -/
+theorem accepted_duration_text_is_iso_only_partial (s : String) (u : Int) (h : pydDuration s = .ok (some u)) :
+    ∀ c ∈ s.toList, isAsciiDigit c = true ∨ c ∈ ['P', 'T', 'Y', 'M', 'W', 'D', 'H', 'S', '+', '-'] :=
+  pydDuration_some_chars s u h
+
+example : pydDuration "-P1W2DT3H" = .ok (some (-((9 * 24 + 3) * 3600 * 1000000))) ∧
+    pydDuration " P1D" = .ok none ∧ pydDuration "P1D " = .ok none ∧ pydDuration "P1d" = .ok none ∧
+    pydDuration "P 1D" = .ok none ∧ pydDuration "86400" = .ok none ∧ pydDuration "1.5" = .ok none ∧
+    pydDuration "2010-07-15T00:00:00" = .ok none ∧ pydDuration "T1S" = .ok none ∧ pydDuration "P1DT1x" = .ok none ∧
+    pydDuration "+P1D\n" = .ok none := by decide +kernel
+
+/-- **validity text** — the ISO shapes pinned: `,` as fraction mark, fraction digits beyond the sixth
+    dropped, U+2212 as minus sign, zone hours ≤ 23 and minutes ≤ 59; no trimming, no other separator, no
+    single-digit fields, no leap second, no hour 24, no year 0 / five-digit year, no compact form -/
+theorem validity_text_table :
+    pydDatetime "2010-07-15T00:00:00,5" = .ok (some (1279152000500000, none)) ∧
+    pydDatetime "2010-07-15T00:00:00.1234569Z" = .ok (some (1279152000123456, some 0)) ∧
+    pydDatetime "2010-07-15T00:00:00\u221202:00" = .ok (some (1279159200000000, some (-7200))) ∧
+    pydDatetime "2010-07-15T00:00:00+23:59" = .ok (some (1279152000000000 - 86340000000, some 86340)) := by
+  decide +kernel
+
+theorem validity_text_refused_table :
+    pydDatetime " 2010-07-15T00:00:00" = .ok none ∧ pydDatetime "2010-07-15T00:00:00 " = .ok none ∧
+    pydDatetime "2010-07-15X00:00:00" = .ok none ∧ pydDatetime "2010-7-15T00:00:00" = .ok none ∧
+    pydDatetime "2010-07-15T00:00:60" = .ok none ∧ pydDatetime "2010-07-15T24:00:00" = .ok none ∧
+    pydDatetime "2010-07-15T00:00:00+24:00" = .ok none ∧ pydDatetime "2010-07-15T00:00:00+02" = .ok none ∧
+    pydDatetime "0000-01-01T00:00:00" = .ok none ∧ pydDatetime "10000-01-01T00:00:00" = .ok none ∧
+    pydDatetime "20100715T000000Z" = .ok none ∧ pydDatetime "2010-02-30" = .ok none ∧
+    pydDatetime "1_000" = .ok none ∧ pydDatetime "--1" = .ok none := by
+  refine ⟨?_, ?_, ?_, ?_, ?_, ?_, ?_, ?_, ?_, ?_, ?_, ?_, ?_, ?_⟩ <;> decide +kernel
+
+/-- **non_mapping_configuration_rejected**.  A configuration whose top level is a non-empty string, a
+    scalar, or a list with an element that is not a pair, is never loaded — `dict(config)` raises
+    before anything is validated (all strings, all scalars, all lists with such an element after any
+    number of well-formed pairs). -/
+theorem string_configuration_rejected (env : Env) (s : String) (hs : s.isEmpty = false) :
+    fromDict env (.str s) = .error (.error .value) :=
+  fromDict_string_rejected env s hs
+
+theorem scalar_configuration_rejected (env : Env) :
+    fromDict env .null = .error (.error .type) ∧ (∀ b, fromDict env (.bool b) = .error (.error .type)) ∧
+    (∀ i, fromDict env (.int i) = .error (.error .type)) ∧ (∀ t g, fromDict env (.float t g) = .error (.error .type)) := by
+  refine ⟨?_, ?_, ?_, ?_⟩ <;> intros <;> simp [fromDict, transformConfig, topLevelDict, err, bind, Except.bind]
+
+theorem list_configuration_with_non_pair_rejected (env : Env) (xs ys : List CVal) (x : CVal)
+    (hpre : ∀ y ∈ xs, ∃ kv, dictPairOf y = .ok kv)
+    (hx : dictPairOf x = .error (.error .type) ∨ dictPairOf x = .error (.error .value)) :
+    ∀ r, fromDict env (.list (xs ++ x :: ys)) ≠ .ok r := by
+  intro r h
+  cases hd : dictOfPairs (xs ++ x :: ys) with
+  | ok kvs => exact dictOfPairs_scalar_rejected xs ys x hpre hx kvs hd
+  | error e => simp [fromDict, transformConfig, topLevelDict, hd, bind, Except.bind] at h
+
+example : dictPairOf (.int 1) = .error (.error .type) ∧ dictPairOf (.str "abc") = .error (.error .value) ∧
+    dictPairOf (.list [.list [.str "a"], .int 1]) = .error (.error .type) ∧
+    (∃ kv, dictPairOf (.list [.str "hsm", .map []]) = .ok kv) := by
+  refine ⟨by simp [dictPairOf, err], by simp [dictPairOf, err], by simp [dictPairOf, hashable, err], ⟨_, rfl⟩⟩
+
+/-- **path_options_normalised** — a path option is loaded as `str(PurePosixPath(text))`: the same file,
+    with empty / `.` segments and a trailing slash dropped (`..` kept, exactly two leading slashes kept) -/
+theorem path_text_table :
+    posixPathNorm "a/b.xml" = "a/b.xml" ∧ posixPathNorm "" = "." ∧ posixPathNorm "./a" = "a" ∧ posixPathNorm "a/" = "a" ∧
+    posixPathNorm "a//b" = "a/b" ∧ posixPathNorm "//a" = "//a" ∧ posixPathNorm "///a" = "/a" ∧ posixPathNorm "/" = "/" ∧
+    posixPathNorm "a/../b" = "a/../b" ∧ posixPathNorm ".//." = "." := by decide +kernel
 
 end Kskm.C16
